@@ -390,62 +390,78 @@ def rule_r6(prog, res) -> None:
 
 
 def rule_r7(prog, res) -> None:
-    """outer edges are exact copies of the requested limits"""
+    """outer edges are exact copies of the requested limits: decided on the symbolic store of every public factory
+    method (shared helpers looked through) — the array handed to Binning(...) is numpy.linspace(<lower>, <upper>, …)
+    of the two limit parameters themselves, or its elements [0] and [-1] were overwritten with those parameters
+    before"""
+    from .. import symx
+
     fac = prog.find_class("RedshiftBinningFactory")
     n = 0
     for m in fac.methods.values():
-        ctor = [c for c in calls_in(m) if any(k.name == "Binning" for k in prog.resolve_call(m, c).classes())]
-        if not ctor:
+        if m.name.startswith("_"):
+            continue
+        paths = [p for p in symx.explore(prog, m, inline=symx.inline_private_helpers(prog)) if p.outcome == "return"]
+        ctors = [(p, ev) for p in paths for ev in p.calls() if any(k.name == "Binning" for k in prog.resolve_call(ev.fi, ev.node).classes())]
+        if not ctors:
             continue
         n += 1
         res.touch(m)
-        params = m.param_names()[1:3]
-        lo_p, hi_p = params
-        call = ctor[0]
-        arg = call.args[0] if call.args else kwarg(call, "edges")
-        # strip `.value`
-        root = arg
-        while isinstance(root, ast.Attribute):
-            root = root.value
-        if not isinstance(root, ast.Name):
-            raise AnalysisError(f"C15.R7: edge argument {unparse(arg)} of {m.short} not recognised")
-        name = root.id
-        vals = [v for v in all_def_values(m.node, name) if v is not None]
-        exact_lo = exact_hi = False
-        if len(vals) == 1 and isinstance(vals[0], ast.Call) and (dotted(vals[0].func) or "").endswith("linspace"):
-            a = vals[0].args
-            if len(a) >= 2 and isinstance(a[0], ast.Name) and a[0].id == lo_p and isinstance(a[1], ast.Name) and a[1].id == hi_p:
-                exact_lo = exact_hi = True
-        # explicit pinning:  edges[0] = min ; edges[-1] = max   (before the Binning call)
-        cfg = cfg_of(m.node)
-        cn = cfg.node_containing(call)
-        for x in walk_no_nested(m.node):
-            if isinstance(x, ast.Assign) and len(x.targets) == 1 and isinstance(x.targets[0], ast.Subscript):
-                t = x.targets[0]
-                base = t.value
-                while isinstance(base, ast.Attribute):
+        lo_p, hi_p = m.param_names()[1:3]
+        bad = None
+        for p, ev in ctors:
+            arg = ev.expr.args[0] if ev.expr.args else kwarg(ev.expr, "edges")
+            if arg is None:
+                raise AnalysisError(f"C15.R7: edge argument of {m.short} not recognised")
+            exact_lo = exact_hi = False
+            # element stores into the local array are part of its symbolic value: SETITEM(array, index, value)
+            pinned = {}
+            base = arg
+            while True:
+                while isinstance(base, ast.Attribute):  # strip `.value`
                     base = base.value
-                if not (isinstance(base, ast.Name) and base.id == name):
+                if isinstance(base, ast.Call) and isinstance(base.func, ast.Name) and base.func.id == symx.SETITEM and len(base.args) == 3:
+                    try:
+                        pinned.setdefault(ceval(base.args[1], {}), base.args[2])  # the latest store wins (outermost first)
+                    except Unknown:
+                        pass
+                    base = base.args[0]
+                    continue
+                break
+            if isinstance(pinned.get(0), ast.Name):
+                exact_lo = pinned[0].id == lo_p
+            if isinstance(pinned.get(-1), ast.Name):
+                exact_hi = pinned[-1].id == hi_p
+            if isinstance(base, ast.Call) and (dotted(base.func) or "").endswith("linspace"):
+                a = base.args
+                if len(a) >= 2 and isinstance(a[0], ast.Name) and a[0].id == lo_p and isinstance(a[1], ast.Name) and a[1].id == hi_p:
+                    exact_lo = exact_lo or 0 not in pinned
+                    exact_hi = exact_hi or -1 not in pinned
+            k_ev = p.events.index(ev)
+            for st_ in p.events[:k_ev]:
+                if st_.kind != "store" or not isinstance(st_.expr, ast.Subscript):
+                    continue
+                if unparse(st_.expr.value) != unparse(arg) and unparse(st_.expr.value) != unparse(base):
                     continue
                 try:
-                    idx = ceval(t.slice, {})
+                    idx = ceval(st_.expr.slice, {})
                 except Unknown:
                     continue
-                dom = all(any(cfg.dominates(sn, c) for sn in cfg.nodes_of(x)) for c in cn)
-                if isinstance(x.value, ast.Name) and dom:
-                    if idx == 0 and x.value.id == lo_p:
-                        exact_lo = True
-                    if idx == -1 and x.value.id == hi_p:
-                        exact_hi = True
-        if exact_lo and exact_hi:
+                if isinstance(st_.value, ast.Name):
+                    if idx == 0:
+                        exact_lo = st_.value.id == lo_p
+                    if idx == -1:
+                        exact_hi = st_.value.id == hi_p
+            if not (exact_lo and exact_hi):
+                bad = (ev, [w for w, ok in (("first", exact_lo), ("last", exact_hi)) if not ok])
+        if bad is None:
             res.ok("C15.R7", res.site(m), f"first and last edge are copies of the parameters {lo_p}/{hi_p}")
         else:
-            which = [w for w, ok in (("first", exact_lo), ("last", exact_hi)) if not ok]
             res.violation(
                 "C15.R7",
                 m,
-                call,
-                f"the {' and '.join(which)} bin edge of method '{m.name}' is the result of a floating-point round trip, not a copy of {lo_p}/{hi_p}: the binning "
+                bad[0].node,
+                f"the {' and '.join(bad[1])} bin edge of method '{m.name}' is the result of a floating-point round trip, not a copy of {lo_p}/{hi_p}: the binning "
                 "does not span exactly [zmin, zmax] and the edges drift when the configuration is written to YAML and read back",
                 key_extra=f"{m.name}-inexact-outer-edges",
             )
